@@ -225,7 +225,9 @@ def gen_fit(rng, models=MODELS, small_noise=False):
     # models that are not linear in their parameters: the curve is drawn as the Monte Carlo MEAN of f(x; p), which differs
     # from f(x; mean p) by a second-order bias; generated cases stay where that bias is far below the sampling error
     # (relative parameter uncertainties ~1e-4); the regime of large uncertainties is the known finding in corpus/C19
-    data = {"kind": "data", "x": xs, "y": ys, "xerr": None if (nonlinear or rng.random() < 0.75) else 0.125,
+    # x uncertainties only with polynomial-type models (numpy.polyfit ignores them); for curve_fit models the effective
+    # variance vanishes where the model is flat (a x^2 + b at x = 0) and the fit returns +/- inf parameters
+    data = {"kind": "data", "x": xs, "y": ys, "xerr": None if (nonlinear or model == "custom" or rng.random() < 0.75) else 0.125,
             "yerr": rng.choice([None, 0.0625, 0.125]) if not nonlinear else 1 / 4096,
             "name": rng.choice([None, "fitted set"]), "form": "dataset", "xrange": None, "label": None, "fmt": None}
     data.update(gen_names(rng))
@@ -241,12 +243,26 @@ def gen_fit(rng, models=MODELS, small_noise=False):
     return spec
 
 
-def gen_plotfit(rng):
-    """Plot.fit: a polynomial-type fit of the last data set / histogram added so far"""
+def gen_plotfit(rng, target=None):
+    """Plot.fit(model, **kw): a polynomial-type fit of the last data set / histogram added so far, with and without
+    xrange / parguess / parnames, the model given positionally or as model=..."""
     model = rng.choice(["linear", "quadratic", "polynomial"])
-    s = {"kind": "plotfit", "model": model, "label": rng.choice(LABELS)}
+    s = {"kind": "plotfit", "model": model, "label": rng.choice(LABELS), "xrange": None,
+         "spelling": rng.choice(["positional", "positional", "keyword"])}
     if model == "polynomial":
         s["degrees"] = rng.choice([1, 3])
+    npar = {"linear": 2, "quadratic": 3}.get(model, s.get("degrees", 3) + 1)
+    if rng.random() < 0.3:
+        s["parguess"] = [dyad(rng, -2, 2) for _ in range(npar)]
+    if rng.random() < 0.3:
+        s["parnames"] = ["p{}".format(k) for k in range(npar)]
+    if target is not None and target["kind"] == "data" and rng.random() < 0.5:
+        xs = sorted(set(target["x"]))
+        need = npar + 2
+        if len(xs) > need:
+            i = rng.randint(0, len(xs) - need - 1)
+            j = rng.randint(i + need, len(xs))
+            s["xrange"] = [xs[i], xs[j] if j < len(xs) else xs[-1] + 0.5]
     return s
 
 
@@ -324,7 +340,7 @@ def gen_script(rng, kind=None):
             objs.insert(0, dict(objs[0]["data"], label=rng.choice(LABELS)))
         if rng.random() < 0.35:
             objs.append(gen_data(rng, fitable=True))
-            objs.append(gen_plotfit(rng))
+            objs.append(gen_plotfit(rng, objs[-1]))
     elif kind == "hist":
         objs.append(gen_hist(rng))
         for _ in range(rng.randint(0, 2)):
@@ -357,7 +373,123 @@ def gen_script(rng, kind=None):
         # a history: the plot is also rendered once after the first k objects (which leaves an x-range behind in the
         # functions that have none of their own), then the remaining objects are added
         st["early_render"] = rng.randint(1, len(objs) - 1)
-    return {"seed": rng.randrange(2 ** 31), "objects": objs, "settings": st, "kind": kind}
+    return vary(rng, {"seed": rng.randrange(2 ** 31), "objects": objs, "settings": st, "kind": kind})
+
+
+
+# ---- further input dimensions (applied on top of a generated script; the expected drawing does not change) -------------
+SPECIAL_X = [0.0, 1.0, -1.0, 2.0, 10.0, 100.0, 0.5, -2.0]
+
+
+def vary(rng, script, allow_scale=True):
+    import copy
+    objs = script["objects"]
+    for o in objs:
+        if o["kind"] == "data":
+            if rng.random() < 0.12:                   # special values as abscissae
+                o["x"] = [rng.choice(SPECIAL_X) for _ in o["x"]]
+                if o["xrange"] is not None:
+                    o["xrange"] = gen_range_for(rng, o["x"])
+            if rng.random() < 0.15:                   # descending order
+                k = sorted(range(len(o["x"])), key=lambda i: -o["x"][i])
+                o.update(cut_data(o, k))
+            if isinstance(o["yerr"], list) and o["yerr"] and rng.random() < 0.3:
+                o["yerr"] = list(o["yerr"])
+                o["yerr"][rng.randrange(len(o["yerr"]))] = 2.0 ** -30     # one tiny uncertainty among ordinary ones
+            if rng.random() < 0.3:
+                o["numtype"] = rng.choice(["int", "ndarray", "float32", "npint", "mixed"])
+            if o["form"] == "arrays" and rng.random() < 0.3:
+                o["spelling"] = "keywords"
+            if rng.random() < 0.25:
+                o["preread"] = True
+            if o["form"] == "dataset" and rng.random() < 0.3:
+                m = {}
+                if rng.random() < 0.7:
+                    m["y"] = [rng.randrange(len(o["y"])), dyad(rng, -10, 10, 3)]
+                if rng.random() < 0.5:
+                    m["xerr"] = [rng.randrange(len(o["x"])), rng.choice([0.0, 0.25, 1.5])]
+                for k in ("xname", "yname"):
+                    if rng.random() < 0.3:
+                        m[k] = rng.choice(["changed", "", "time"])
+                for k in ("xunit", "yunit"):
+                    if rng.random() < 0.3:
+                        m[k] = rng.choice(["", "A", "m"])
+                if m:
+                    o["mutate"] = m
+        elif o["kind"] == "func":
+            if rng.random() < 0.25:
+                o["numtype"] = rng.choice(["int", "ndarray"])
+        elif o["kind"] == "hist":
+            if rng.random() < 0.3:
+                o["numtype"] = rng.choice(["int", "ndarray", "npint", "float32"])
+        elif o["kind"] in ("fit", "plotfit"):
+            if rng.random() < 0.3:
+                o["preread"] = True
+    if objs and rng.random() < 0.15:                  # equal values (and names, labels) in DISTINCT objects
+        src = rng.choice(objs)
+        if src["kind"] in ("data", "func", "hist"):
+            dup = copy.deepcopy(src)
+            dup.pop("mutate", None)
+            objs.insert(rng.randint(0, len(objs)), dup) if not any(o["kind"] == "plotfit" for o in objs) else objs.append(dup)
+    st = script["settings"]
+    st["render_via"] = rng.choice(["savefig", "savefig", "savefig", "show", "module-show", "module-savefig-obj"])
+    if rng.random() < 0.2:
+        st["bad_calls"] = rng.sample(BAD_CALLS, rng.randint(1, 3))
+    if allow_scale and rng.random() < 0.2 and scalable(script):
+        apply_scale(script, rng.choice([2.0 ** -40, 2.0 ** -30, 2.0 ** 30]))
+    return script
+
+
+def scalable(script):
+    for o in script["objects"]:
+        if o["kind"] == "fit" and o["model"] not in ("linear", "quadratic"):
+            return False
+        if o["kind"] == "plotfit" and o["model"] == "polynomial":
+            return False
+        if o["kind"] == "hist" and isinstance(o["bins"], str):
+            return False
+    return True
+
+
+def apply_scale(script, S):
+    """x, y, uncertainties and ranges of everything on the plot times S (a power of two, so the doubles stay exact);
+    functions become S * f(x / S); counts stay counts, densities scale with 1 / S"""
+    def sc(v):
+        if v is None or isinstance(v, str):
+            return v
+        if isinstance(v, list):
+            return [x * S for x in v]
+        return v * S
+
+    def sdata(d):
+        for k in ("x", "y", "xerr", "yerr", "xrange"):
+            d[k] = sc(d[k])
+        m = d.get("mutate")
+        if m:
+            for k in ("y", "xerr"):
+                if k in m:
+                    m[k] = [m[k][0], m[k][1] * S]
+    for o in script["objects"]:
+        if o["kind"] == "data":
+            sdata(o)
+        elif o["kind"] == "func":
+            o["cv"] = [c * S ** (1 - k) for k, c in enumerate(o["cv"])]
+            if o["par"]:
+                o["par"] = dict(o["par"], pa=[c * S ** (1 - k) for k, c in enumerate(o["par"]["pa"])], c=o["par"]["c"] * S)
+            o["xrange"] = sc(o["xrange"])
+        elif o["kind"] == "fit":
+            sdata(o["data"])
+            o["xrange"] = sc(o["xrange"])
+        elif o["kind"] == "plotfit":
+            o["xrange"] = sc(o.get("xrange"))
+        elif o["kind"] == "hist":
+            o["samples"] = sc(o["samples"])
+            o["range"] = sc(o["range"])
+            if isinstance(o["bins"], list):
+                o["bins"] = sc(o["bins"])
+            o.update(hist_sane(o))       # (a zero-width range is widened by an ABSOLUTE 0.5 on each side)
+    script["settings"]["xrange"] = sc(script["settings"]["xrange"])
+    script["scale"] = S
 
 
 def gen_order_set(rng, k):
@@ -381,7 +513,7 @@ def gen_order_set(rng, k):
     has_fit = any(o["kind"] == "fit" for o in objs)
     st = gen_settings(rng, has_fit)
     st["renders"] = 1
-    return {"seed": rng.randrange(2 ** 31), "objects": objs, "settings": st, "kind": "orders"}
+    return vary(rng, {"seed": rng.randrange(2 ** 31), "objects": objs, "settings": st, "kind": "orders"})
 
 
 # =====================================================================================================
@@ -496,38 +628,167 @@ def build_dataset(d):
     return q.XYDataSet(list(d["x"]), list(d["y"]), **data_kwargs(d))
 
 
-def add_object(p, spec, handles):
+def effective(spec):
+    """the object as the user last left it: a data set given as an XYDataSet may be changed through its public
+    attributes after it was added to the plot (spec["mutate"]); what must be drawn is its state at rendering time"""
+    m = spec.get("mutate")
+    if not m or spec["kind"] != "data":
+        return spec
+    d = dict(spec, mutate=None)
+    n = len(d["x"])
+    if "y" in m:
+        d["y"] = list(d["y"])
+        d["y"][m["y"][0]] = m["y"][1]
+    if "xerr" in m:
+        d["xerr"] = err_list(d["xerr"], n)
+        d["xerr"][m["xerr"][0]] = m["xerr"][1]
+    for k in ("xname", "yname", "xunit", "yunit"):
+        if k in m:
+            d[k] = m[k]
+    return d
+
+
+def mutate_dataset(ds, m):
+    if "y" in m:
+        ds.ydata[m["y"][0]].value = m["y"][1]
+    if "xerr" in m:
+        ds.xdata[m["xerr"][0]].error = m["xerr"][1]
+    for k in ("xname", "yname", "xunit", "yunit"):
+        if k in m:
+            setattr(ds, k, m[k])
+
+
+def as_numtype(values, numtype, integral_ok=True):
+    """the same numbers handed over as another number / container type"""
+    import numpy as np
+    vals = list(values)
+    if numtype == "int" and all(float(v).is_integer() and abs(v) < 2 ** 40 for v in vals):
+        return [int(v) for v in vals]
+    if numtype == "ndarray":
+        return np.asarray(vals, dtype=float)
+    if numtype == "float32" and all(float(np.float32(v)) == v for v in vals):
+        return np.asarray(vals, dtype=np.float32)
+    if numtype == "npint" and all(float(v).is_integer() and abs(v) < 2 ** 40 for v in vals):
+        return np.asarray([int(v) for v in vals], dtype=np.int64)
+    if numtype == "mixed":
+        from fractions import Fraction as F
+        out = []
+        for k, v in enumerate(vals):
+            if v in (0.0, 1.0) and k % 2 == 0:
+                out.append(bool(v))
+            elif k % 3 == 0:
+                out.append(F(v))
+            elif k % 3 == 1:
+                out.append(np.float64(v))
+            else:
+                out.append(v)
+        return out
+    return vals
+
+
+def as_range(r, numtype):
+    import numpy as np
+    if numtype in ("ndarray", "npint", "float32", "mixed"):
+        return (np.float64(r[0]), np.float64(r[1]))
+    if numtype == "int" and all(float(v).is_integer() for v in r):
+        return [int(r[0]), int(r[1])]
+    return tuple(r)
+
+
+def pre_read(obj):
+    """read / print an object before it is used (a memoised or half-initialised state would show afterwards)"""
+    try:
+        str(obj)
+        for attr in ("xvalues", "yvalues", "xerr", "yerr", "xname", "xunit", "residuals", "chi_squared", "params"):
+            if hasattr(obj, attr):
+                v = getattr(obj, attr)
+                if attr in ("residuals", "params"):
+                    [str(t) for t in v]
+    except Exception:  # noqa
+        pass
+
+
+BAD_CALLS = ["xrange-reversed", "plot-xrange-reversed", "title-number", "plot-number", "plot-lengths", "hist-string",
+             "function-without-pars", "xname-number", "fit-nothing-sensible"]
+
+
+def bad_call(p, name):
+    """an invalid request; it is offered twice; whether it raises is not C19's business -- the later rendering must
+    show the plot as if the call had never been made"""
+    for _ in range(2):
+        try:
+            if name == "xrange-reversed":
+                p.plot([1.0, 2.0], [3.0, 4.0], xrange=(5, 1))
+            elif name == "plot-xrange-reversed":
+                p.xrange = (3, 1)
+            elif name == "title-number":
+                p.title = 5
+            elif name == "plot-number":
+                p.plot(3)
+            elif name == "plot-lengths":
+                p.plot([1.0, 2.0], [1.0, 2.0, 3.0])
+            elif name == "hist-string":
+                p.hist("abc")
+            elif name == "function-without-pars":
+                p.plot(lambda x, a: a * x)
+            elif name == "xname-number":
+                p.xname = 7
+            elif name == "fit-nothing-sensible":
+                p.fit(model=17)
+        except Exception:  # noqa
+            pass
+
+
+def add_object(p, spec, handles, shared=None):
     """add one object to Plot p; returns the user-level handle kept for the oracle"""
     q = _q()
     kind = spec["kind"]
     if kind == "data":
         kw = {}
+        nt = spec.get("numtype")
         if spec["xrange"] is not None:
-            kw["xrange"] = tuple(spec["xrange"])
+            kw["xrange"] = as_range(spec["xrange"], nt)
         if spec["label"] is not None:
             kw["label"] = spec["label"]
         if spec.get("fmt"):
             kw["fmt"] = spec["fmt"]
+        xs, ys = as_numtype(spec["x"], nt), as_numtype(spec["y"], nt)
         if spec["form"] == "dataset":
-            ds = build_dataset(spec)
+            key = spec.get("shared")
+            if shared is not None and key is not None and key in shared:
+                ds = shared[key]                 # the SAME XYDataSet object, also drawn on another plot
+            else:
+                ds = q.XYDataSet(xs, ys, **data_kwargs(spec))
+                if shared is not None and key is not None:
+                    shared[key] = ds
+            if spec.get("preread"):
+                pre_read(ds)
             p.plot(ds, **kw)
+            if spec.get("mutate"):
+                mutate_dataset(ds, spec["mutate"])
             return {"dataset": ds}
         if spec["form"] == "marrays":
-            xa = q.MeasurementArray(list(spec["x"]), spec["xerr"], name=spec["xname"], unit=spec["xunit"])
-            ya = q.MeasurementArray(list(spec["y"]), spec["yerr"], name=spec["yname"], unit=spec["yunit"])
+            xa = q.MeasurementArray(xs, spec["xerr"], name=spec["xname"], unit=spec["xunit"])
+            ya = q.MeasurementArray(ys, spec["yerr"], name=spec["yname"], unit=spec["yunit"])
             if spec["name"] is not None:
                 kw["name"] = spec["name"]
+            if spec.get("preread"):
+                pre_read(xa)
+                pre_read(ya)
             p.plot(xa, ya, **kw)
             return {}
         kw.update(data_kwargs(spec))
-        p.plot(list(spec["x"]), list(spec["y"]), **kw)
+        if spec.get("spelling") == "keywords":       # the keyword spelling of the same call
+            p.plot(xdata=xs, ydata=ys, **kw)
+        else:
+            p.plot(xs, ys, **kw)
         return {}
     if kind == "func":
         f, kw = make_function(spec)
         if spec["xrange"] == "empty":
             kw["xrange"] = ()
         elif spec["xrange"] is not None:
-            kw["xrange"] = tuple(spec["xrange"])
+            kw["xrange"] = as_range(spec["xrange"], spec.get("numtype"))
         if spec["label"] is not None:
             kw["label"] = spec["label"]
         for k in ("xname", "yname", "xunit", "yunit"):
@@ -548,6 +809,9 @@ def add_object(p, spec, handles):
             def model(x, a, b):
                 return a * x * x + b
         r = ds.fit(model, **kw) if spec["via"] == "dataset.fit" else q.fit(ds, model, **kw)
+        if spec.get("preread"):
+            pre_read(r)
+            pre_read(ds)
         pk = {}
         if spec["label"] is not None:
             pk["label"] = spec["label"]
@@ -559,7 +823,14 @@ def add_object(p, spec, handles):
             kw["degrees"] = spec["degrees"]
         if spec["label"] is not None:
             kw["label"] = spec["label"]
-        r = p.fit(spec["model"], **kw)
+        for k in ("parguess", "parnames"):
+            if spec.get(k) is not None:
+                kw[k] = list(spec[k])
+        if spec.get("xrange") is not None:
+            kw["xrange"] = tuple(spec["xrange"])
+        r = p.fit(model=spec["model"], **kw) if spec.get("spelling") == "keyword" else p.fit(spec["model"], **kw)
+        if spec.get("preread"):
+            pre_read(r)
         return {"fit": r, "dataset": r.dataset}
     if kind == "hist":
         kw = {}
@@ -574,7 +845,9 @@ def add_object(p, spec, handles):
                 kw[k] = spec[k]
         if spec.get("weights") is not None:
             kw["weights"] = list(spec["weights"])
-        samples = list(spec["samples"])
+        samples = as_numtype(spec["samples"], spec.get("numtype"))
+        if not isinstance(samples, list) and spec["form"] != "marray":
+            pass                                     # a numpy array of samples is accepted as it is
         if spec["form"] == "marray":
             samples = q.MeasurementArray(samples, 0.25)
         n, edges = p.hist(samples, **kw)
@@ -600,7 +873,10 @@ class Structure(Exception):
 
 
 def fl(a):
-    return [float(v) for v in a]
+    out = [float(v) for v in a]
+    if any(v != v or v in (float("inf"), float("-inf")) for v in out):
+        raise Structure("a NaN or infinite value is handed to matplotlib")
+    return out
 
 
 def read_errorbar(cont):
@@ -737,11 +1013,18 @@ def observe_plot(p, specs, st, handles, obs, renders=1, via_module=False):
         figs = []
         for _ in range(renders):
             buf = io.BytesIO()
-            if via_module and qp.get_plot() is p:
+            how = st.get("render_via", "savefig")
+            if how == "show":                          # every public entry point of the same behaviour
+                p.show()
+            elif how == "module-show":
+                qp.show(p)
+            elif how == "module-savefig-obj":
+                qp.savefig(buf, plot_obj=p, format="png", dpi=DPI)
+            elif via_module and qp.get_plot() is p:
                 qp.savefig(buf, format="png", dpi=DPI)
             else:
                 p.savefig(buf, format="png", dpi=DPI)
-            if not buf.getvalue().startswith(b"\x89PNG"):
+            if how not in ("show", "module-show") and not buf.getvalue().startswith(b"\x89PNG"):
                 raise Structure("savefig did not write a PNG image")
             figs.append(read_figure(p, specs, st))
         obs.update(figs[-1])
@@ -765,7 +1048,7 @@ def observe_plot(p, specs, st, handles, obs, renders=1, via_module=False):
     for spec, h, o in zip(specs, handles, obs.get("objects", [None] * len(specs))):
         a = {}
         if spec["kind"] == "data":
-            a["units"] = [printed_unit(spec["xunit"]), printed_unit(spec["yunit"])]
+            a["units"] = [printed_unit(effective(spec)["xunit"]), printed_unit(effective(spec)["yunit"])]
         if spec["kind"] in ("fit", "plotfit"):
             r = h["fit"]
             ds = r.dataset
@@ -827,6 +1110,8 @@ def execute(script, order=None):
                 plt.close("all")
         if not st["settings_first"]:
             apply_settings(p, st)
+        for name in st.get("bad_calls", []):
+            bad_call(p, name)
     except Exception as e:  # noqa
         plt.close("all")
         return {"obs": {"status": "add-error", "error": "{}: {}".format(type(e).__name__, str(e)[:200])}, "aux": []}
@@ -853,12 +1138,19 @@ class _FirstCall:
 # =====================================================================================================
 # the property-level oracle: direct recomputation from the user's inputs (independent of the Coq model)
 # =====================================================================================================
-def close(a, b, tol=TOL, atol=ATOL):
-    return abs(a - b) <= tol * (abs(a) + abs(b)) + atol
+_SC = 1.0        # scale of the data of the case being checked: absolute tolerances are relative to it
 
 
-def lclose(a, b):
-    return len(a) == len(b) and all(close(x, y) for x, y in zip(a, b))
+def close(a, b, tol=TOL, atol=ATOL, sc=None):
+    return abs(a - b) <= tol * (abs(a) + abs(b)) + atol * (_SC if sc is None else sc)
+
+
+def lclose(a, b, sc=None):
+    return len(a) == len(b) and all(close(x, y, sc=sc) for x, y in zip(a, b))
+
+
+def maxabs(l):
+    return max([abs(float(v)) for v in l] + [0.0])
 
 
 def err_list(e, n):
@@ -936,11 +1228,12 @@ def target_of(specs, i, aux):
         t = specs[j]
         if t["kind"] == "data":
             n = len(t["x"])
-            return [float(v) for v in t["x"]], [float(v) for v in t["y"]], err_list(t["xerr"], n), err_list(t["yerr"], n), None, t
+            return [float(v) for v in t["x"]], [float(v) for v in t["y"]], err_list(t["xerr"], n), err_list(t["yerr"], n), \
+                spec.get("xrange"), t
         if t["kind"] == "hist":
             counts, edges, _ = exp_hist(t)
             xs = [float((edges[k] + edges[k + 1]) / 2) for k in range(len(counts))]
-            return xs, [float(c) for c in counts], [0.0] * len(xs), [0.0] * len(xs), None, None
+            return xs, [float(c) for c in counts], [0.0] * len(xs), [0.0] * len(xs), spec.get("xrange"), None
     return None
 
 
@@ -970,9 +1263,11 @@ def exp_label(name, unit):
 
 def oracle(script, order, run):
     """None, or a description of the first thing drawn that is not the data"""
+    global _SC
     obs, aux = run["obs"], run["aux"]
     st = script["settings"]
-    specs = [script["objects"][i] for i in order]
+    specs = [effective(script["objects"][i]) for i in order]
+    _SC = float(script.get("scale", 1.0))
     if obs["status"] == "add-error":
         return None                      # not a rendering question (the generator avoids these)
     if obs["status"] == "structure":
@@ -981,16 +1276,16 @@ def oracle(script, order, run):
     hs = [s for s in specs if s["kind"] == "hist"]
     for s, (n, edges) in zip(hs, obs["returned"]):
         ret, e, _ = exp_hist(s)
-        if not lclose(n, [float(v) for v in ret]) or not lclose(edges, [float(v) for v in e]):
+        if not lclose(n, [float(v) for v in ret], sc=maxabs(ret)) or not lclose(edges, [float(v) for v in e]):
             return "hist({}) returned {} edges {}, the samples give {} edges {}".format(
                 hist_kw_text(s), n, edges, [float(v) for v in ret], [float(v) for v in e])
         lo, hi = e[0], e[-1]
         wts = s["weights"] if s.get("weights") is not None else [1.0] * len(s["samples"])
         inside = sum(Fraction(w) for v, w in zip(s["samples"], wts) if lo <= Fraction(v) <= hi)
-        if not s.get("density") and not close(sum(n), float(inside)):
+        if not s.get("density") and not close(sum(n), float(inside), sc=max(1.0, float(inside))):
             return "hist({}) returned contents summing to {} but the (weighted) number of samples within [{}, {}] is {}".format(
                 hist_kw_text(s), sum(n), float(lo), float(hi), float(inside))
-        if s.get("density") and not close(sum(v * float(e[k + 1] - e[k]) for k, v in enumerate(n)), 1.0, 1e-9, 1e-9):
+        if s.get("density") and not close(sum(v * float(e[k + 1] - e[k]) for k, v in enumerate(n)), 1.0, 1e-9, 1e-9, sc=1.0):
             return "hist({}) returned densities {} that do not integrate to 1".format(hist_kw_text(s), n)
     # can the plot be rendered at all?
     ranges = [obj_range(specs, i, aux) for i in range(len(specs))]
@@ -1041,15 +1336,18 @@ def oracle(script, order, run):
                     return "{}: fit curve drawn from {} to {} ({} points), expected 100 points from {} to {}".format(
                         where, o["x"][0] if o["x"] else None, o["x"][-1] if o["x"] else None, len(o["x"]), float(lo), float(hi))
                 ref = a["fitfn_at_curve"]
+                why = restricted_fit_check(where, s, tx, ty, tye, lo, hi, xr, o["x"], ref)
+                if why:
+                    return why
                 for k in range(100):
                     if eb:
                         sigma = (o["upper"][k] - o["lower"][k]) / 2
                         if sigma < 0 or not close((o["upper"][k] + o["lower"][k]) / 2, o["y"][k], 1e-9, 1e-9):
                             return "{}: at x={} the band [{}, {}] is not centred on the curve {}".format(
                                 where, o["x"][k], o["lower"][k], o["upper"][k], o["y"][k])
-                        tol = 6 * sigma / 100 + 1e-9 * (abs(ref[k]) + 1)
+                        tol = 6 * sigma / 100 + 1e-9 * (abs(ref[k]) + _SC)
                     else:   # no band drawn: the first-order uncertainty of fit_function stands in for the Monte Carlo sigma
-                        tol = 6 * 1.1 * a["fitfn_err_at_curve"][k] / 100 + 1e-9 * (abs(ref[k]) + 1)
+                        tol = 6 * 1.1 * a["fitfn_err_at_curve"][k] / 100 + 1e-9 * (abs(ref[k]) + _SC)
                     if abs(o["y"][k] - ref[k]) > tol:
                         return "{}: at x={} the fit curve is at {} but fit_function gives {} (allowed {:.3g}: 6 sigma of the " \
                                "sampling error)".format(where, o["x"][k], o["y"][k], ref[k], tol)
@@ -1067,7 +1365,9 @@ def oracle(script, order, run):
             else:
                 ret, edges, heights = exp_hist(s)
                 bars = [[float(edges[k]), float(edges[k + 1] - edges[k]), float(heights[k])] for k in range(len(heights))]
-                if len(bars) != len(o["bars"]) or not all(lclose(b, c) for b, c in zip(bars, o["bars"])):
+                hs_ = maxabs(heights)
+                if len(bars) != len(o["bars"]) or not all(lclose(b[:2], c[:2]) and close(b[2], c[2], sc=hs_)
+                                                          for b, c in zip(bars, o["bars"])):
                     return "{}: hist({}): bars (left, width, height) {} but the samples give {}".format(
                         where, hist_kw_text(s), o["bars"], bars)
                 # (a) against the values that were returned to the caller
@@ -1080,7 +1380,7 @@ def oracle(script, order, run):
                         want.append(acc)
                 else:
                     want = n_ret
-                if not (len(drawn) == len(want) and all(close(a_, b_, 1e-9, 1e-9) for a_, b_ in zip(drawn, want))):
+                if not (len(drawn) == len(want) and all(close(a_, b_, 1e-9, 1e-9, sc=maxabs(want)) for a_, b_ in zip(drawn, want))):
                     return "{}: hist({}): bar heights {} are not the values returned to the caller {}{}".format(
                         where, hist_kw_text(s), drawn, n_ret, " (accumulated)" if s.get("cumulative") else "")
         # labels
@@ -1119,6 +1419,34 @@ def oracle(script, order, run):
                 return "legend {!r}, expected {!r}".format(fig["legend"], want)
         elif fig["legend"] is not None:
             return "a legend is drawn although it is switched off"
+    return None
+
+
+def restricted_fit_check(where, s, tx, ty, tye, lo, hi, xr, curve_x, ref):
+    """polynomial-type models: the fit function on the plot is the least-squares polynomial of the points with
+    low <= x < high (all points when no range was given), recomputed here with numpy.polyfit"""
+    import numpy as np
+    deg = {"linear": 1, "quadratic": 2, "polynomial": s.get("degrees", 3)}.get(s["model"])
+    if deg is None:
+        return None
+    idx = [k for k in range(len(tx)) if xr is None or (xr[0] <= tx[k] < xr[1])]
+    if len(idx) <= deg + 1:
+        return None
+    w = None
+    if any(tye[k] > 0 for k in idx):
+        if any(tye[k] <= 0 for k in idx):
+            return None
+        w = [1 / tye[k] for k in idx]
+    with warnings.catch_warnings():
+        warnings.simplefilter("ignore")
+        coef = np.polyfit([tx[k] for k in idx], [ty[k] for k in idx], deg, w=w)
+    mine = np.polyval(coef, np.asarray(curve_x, dtype=float))
+    big = max(maxabs(mine), maxabs(ty))
+    for k in range(len(curve_x)):
+        if abs(mine[k] - ref[k]) > 1e-6 * big + 1e-9 * _SC:
+            return "{}: fit_function({}) = {} but the least-squares {} of the {} points{} gives {}".format(
+                where, curve_x[k], ref[k], s["model"], len(idx),
+                " with {} <= x < {}".format(xr[0], xr[1]) if xr is not None else "", float(mine[k]))
     return None
 
 
@@ -1217,8 +1545,14 @@ def gen_session(rng):
         st = sc["settings"]
         if rng.random() < 0.45:        # a plot that never touches its switches: everything must stay at the defaults
             st = dict(st, **DEFAULT_SWITCHES)
-        plots.append({"objects": objs, "entry": st["entry"]})
+        for o in objs:                 # the data set is also changed through its public attributes after it was added
+            if o.get("mutate") and rng.random() < 0.5:
+                o["mutate_late"] = True
+        plots.append({"objects": objs, "entry": st["entry"], "scale": sc.get("scale", 1.0),
+                      "render_via": st.get("render_via", "savefig")})
         ops = [["add", j] for j in range(len(objs))]
+        for name in st.get("bad_calls", []):
+            ops.insert(rng.randint(1 if ops else 0, len(ops)), ["bad", name])
         extra = []
         for name, dflt in DEFAULT_SWITCHES.items():
             if st[name] != dflt or rng.random() < 0.1:
@@ -1232,8 +1566,26 @@ def gen_session(rng):
             ops.insert(rng.randint(1 if ops else 0, len(ops)), e)
         if len(objs) >= 2 and rng.random() < 0.3:
             ops.insert(rng.randint(1, len(ops)), ["render"])
+        for j, o in enumerate(objs):
+            if o.get("mutate_late"):
+                at = ops.index(["add", j])
+                ops.insert(rng.randint(at + 1, len(ops)), ["mutate", j])
         ops.append(["render"])
         seqs.append(ops)
+    if rng.random() < 0.35:            # the SAME XYDataSet object drawn on two plots (with different x-ranges)
+        src = [(i, o) for i in range(k) for o in plots[i]["objects"] if o["kind"] == "data" and o["form"] == "dataset"
+               and not o.get("mutate")]
+        if src:
+            i, o = rng.choice(src)
+            j = rng.choice([t for t in range(k) if t != i])
+            if plots[j]["scale"] == plots[i]["scale"]:
+                o["shared"] = "s0"
+                twin = dict(o, xrange=gen_range_for(rng, [x / plots[i]["scale"] for x in o["x"]]) if rng.random() < 0.6 else None,
+                            label=rng.choice(LABELS))
+                if twin["xrange"] is not None:
+                    twin["xrange"] = [v * plots[i]["scale"] for v in twin["xrange"]]
+                plots[j]["objects"].append(twin)
+                seqs[j].insert(len(seqs[j]) - 1, ["add", len(plots[j]["objects"]) - 1])
     steps, pos = [], [0] * k
     while any(pos[i] < len(seqs[i]) for i in range(k)):
         i = rng.choice([j for j in range(k) if pos[j] < len(seqs[j])])
@@ -1258,7 +1610,9 @@ def execute_session(sess):
     k = len(sess["plots"])
     plots, handles, specs, returned = [None] * k, [[] for _ in range(k)], [[] for _ in range(k)], [[] for _ in range(k)]
     tracked = [dict(DEFAULT_SWITCHES, xrange=None, title="", xname="", yname="", xunit="", yunit="", entry="class",
-                    renders=1, settings_first=True) for _ in range(k)]
+                    renders=1, settings_first=True, render_via=sess["plots"][i].get("render_via", "savefig"))
+               for i in range(k)]
+    shared = {}
     out = []
     try:
         for n, step in enumerate(sess["steps"]):
@@ -1268,16 +1622,27 @@ def execute_session(sess):
                 plots[i] = P.Plot()
             if op == "add":
                 spec = sess["plots"][i]["objects"][step[2]]
+                if spec.get("mutate_late"):
+                    spec = dict(spec, mutate=None, mutate_late=step[2])
                 if plots[i] is None:
                     shim = _FirstCall(qp, spec)
-                    h = add_object(shim, spec, handles[i])
+                    h = add_object(shim, spec, handles[i], shared)
                     plots[i] = shim.plot_obj
                 else:
-                    h = add_object(plots[i], spec, handles[i])
+                    h = add_object(plots[i], spec, handles[i], shared)
                 handles[i].append(h)
                 specs[i].append(spec)
                 if "returned" in h:
                     returned[i].append(h["returned"])
+            elif op == "mutate":
+                full = sess["plots"][i]["objects"][step[2]]
+                at = [t for t, sp in enumerate(specs[i]) if sp.get("mutate_late") == step[2] and sp.get("mutate") is None
+                      and sp["kind"] == "data"]
+                if at:
+                    mutate_dataset(handles[i][at[0]]["dataset"], full["mutate"])
+                    specs[i][at[0]] = dict(full, mutate_late=None)
+            elif op == "bad":
+                bad_call(plots[i], step[2])
             elif op == "switch":
                 getattr(plots[i], step[2])(step[3])
                 tracked[i][step[2]] = step[3]
@@ -1293,7 +1658,7 @@ def execute_session(sess):
                 aux = observe_plot(plots[i], list(specs[i]), st, handles[i], obs)
                 plt.close("all")
                 out.append({"plot": i, "step": n, "script": {"seed": sess["seed"], "objects": list(specs[i]), "settings": st,
-                                                             "kind": "session"},
+                                                             "kind": "session", "scale": sess["plots"][i].get("scale", 1.0)},
                             "order": list(range(len(specs[i]))), "run": {"obs": obs, "aux": aux}})
     except Exception as e:  # noqa
         plt.close("all")
@@ -1416,6 +1781,23 @@ def load_corpus():
     return out
 
 
+def probe_cases():
+    """a fixed handful of sharp inputs that the oracle always tries (they run even when the models do not build):
+    x-range masks on data of size 1e-12 and 1e9 with bounds on and between the data values"""
+    out = []
+    st = {"error_bars": True, "residuals": False, "legend": False, "xrange": None, "title": "", "xname": "",
+          "yname": "", "xunit": "", "yunit": "", "entry": "class", "renders": 1, "settings_first": True}
+    for S in (2.0 ** -40, 2.0 ** 30):
+        for lo, hi in ((0.0, 1.0), (1.0, 2.0), (0.0, 2.0), (0.5, 2.5)):
+            d = {"kind": "data", "x": [0.0, 1.0, 2.0, 1.0], "y": [1.5, -2.0, 3.25, 0.5], "xerr": [0.25, 0.0, 0.5, 0.125],
+                 "yerr": [0.5, 0.25, 2.0 ** -30, 1.0], "name": None, "form": "arrays", "xrange": [lo, hi], "label": None,
+                 "fmt": None, "xname": "", "yname": "", "xunit": "", "yunit": ""}
+            sc = {"seed": 1, "objects": [d], "settings": dict(st), "kind": "probe"}
+            apply_scale(sc, S)
+            out.append({"script": sc, "order": None, "all_orders": False})
+    return out
+
+
 def search(ctx, suspects, budget):
     t0 = time.time()
     rng = ctx.rng
@@ -1431,7 +1813,7 @@ def search(ctx, suspects, budget):
                 seen.add(v.key)
                 out.append(v)
     n_known = len(out)
-    todo = [s["case"] for s in suspects if s.get("case")]
+    todo = [s["case"] for s in suspects if s.get("case")] + probe_cases()
     while len(out) - n_known < 3:
         if todo:
             case = todo.pop(0)
@@ -1582,7 +1964,7 @@ STATUS = {"ok": "StOk", "no-domain": "StNoDomain", "no-function-domain": "StNoFu
 def ccase(script, order, run, fig=None):
     obs, aux = run["obs"], run["aux"]
     st = script["settings"]
-    specs = [script["objects"][i] for i in order]
+    specs = [effective(script["objects"][i]) for i in order]
     eb = st["error_bars"]
     cfg = I("(mk_settings {} {} {} {} {} {} {} {} {})".format(
         coq_bool(eb), coq_bool(st["residuals"]), coq_bool(st["legend"]), crange(st["xrange"]), txt(st["title"]),
@@ -1590,13 +1972,14 @@ def ccase(script, order, run, fig=None):
     objs = coq_list([cobj(s, a, specs, i, aux) for i, (s, a) in enumerate(zip(specs, aux))])
     fig = fig or obs
     ok = obs["status"] == "ok"
-    ob = "(mk_observation {} {} {} {} {} {} {} {})".format(
+    ob = "(mk_observation {} {} {} {} {} {} {} {} {})".format(
         STATUS[obs["status"]],
         coq_list([cdrawn(o, eb) for o in fig["objects"]]) if ok else "[]",
         txt(fig["xlabel"]) if ok else "[]", txt(fig["ylabel"]) if ok else "[]", txt(fig["title"]) if ok else "[]",
         coq_option(fig["res_xlabel"], txt) if ok else "None",
         coq_option(fig["legend"], lambda l: coq_list([txt(t) for t in l])) if ok else "None",
-        coq_list(["({}, {})".format(ql(n), ql(e)) for n, e in obs["returned"]]))
+        coq_list(["({}, {})".format(ql(n), ql(e)) for n, e in obs["returned"]]),
+        fq(float(script.get("scale", 1.0))))
     return "({}, {}, {})".format(cfg, objs, ob)
 
 
@@ -1658,8 +2041,22 @@ def run_jobs(jobs, workers=10):
 def nontrivial_key(script, order, run):
     """a case is non-trivial when at least one non-default branch of the pipeline is exercised: an x-range that
     removes a point, a function without its own range, a fit, residuals, a histogram with a range or a sequence"""
-    specs = [script["objects"][i] for i in order]
+    specs = [effective(script["objects"][i]) for i in order]
     tags = set()
+    for s0 in (script["objects"][i] for i in order):
+        for k in ("mutate", "preread", "shared"):
+            if s0.get(k):
+                tags.add(k)
+        if s0.get("numtype"):
+            tags.add("numtype-" + s0["numtype"])
+        if s0.get("spelling"):
+            tags.add("spelling-" + s0["spelling"])
+    if script.get("scale", 1.0) != 1.0:
+        tags.add("scale-{:.0e}".format(script["scale"]))
+    if script["settings"].get("bad_calls"):
+        tags.add("bad-calls")
+    if script["settings"].get("render_via", "savefig") != "savefig":
+        tags.add("render-" + script["settings"]["render_via"])
     for s in specs:
         if s["kind"] == "data" and s["xrange"] is not None:
             if any(not (s["xrange"][0] <= x < s["xrange"][1]) for x in s["x"]):
@@ -1689,9 +2086,9 @@ def correspondence(ctx):
     global INTERN
     res = CorrResult()
     rng = ctx.rng
-    n_scripts = ctx.n(56, 560)
+    n_scripts = ctx.n(44, 420)
     n_malformed = ctx.n(8, 60)
-    n_sets = ctx.n(12, 110)
+    n_sets = ctx.n(10, 80)
     cases = []          # (script, order, tag)
     for c in load_corpus():
         if c.get("use") == "oracle":      # recorded findings are replayed by the oracle only
@@ -1742,7 +2139,7 @@ def correspondence(ctx):
     t0 = time.time()
     runs = run_jobs([(s, o) for s, o, _ in cases])
     # multi-plot sessions: each render of each plot becomes a case of that plot's own state
-    sessions = [gen_session(rng) for _ in range(ctx.n(16, 140))]
+    sessions = [gen_session(rng) for _ in range(ctx.n(12, 100))]
     sess_of, n_sess_ok, n_sess_renders = {}, 0, 0
     for sess, result in zip(sessions, run_sessions(sessions)):
         res.count("session:" + result["status"])
@@ -1826,7 +2223,13 @@ def correspondence(ctx):
             flush()
         last_script = skey
         before = sum(len(d) for d in INTERN.defs)
-        term = ccase(s, o, run)
+        try:
+            term = ccase(s, o, run)
+        except (ValueError, OverflowError) as e:     # e.g. a NaN among the auxiliary values of a degenerate fit
+            res.disagreements.append({"name": "case could not be encoded for the model: {}".format(e), "kind": "script",
+                                      "case": {"session": sess_of[id(s)]} if id(s) in sess_of else
+                                      {"script": s, "order": o, "all_orders": False}})
+            continue
         cur.append(term)
         cur_idx.append(k)
         if run["obs"].get("first_render"):
